@@ -84,13 +84,24 @@ def render_fifo(cfg) -> str:
         # the combined view is only meaningful without delays; keep the ports driven
         s += "        @std.concurrent\n        def logic():\n"
         s += "            self.o_empty <<= False\n            self.o_full <<= False\n            self.o_front <<= Null\n\n"
-    prod = "            is_full = fifo.full()\n            self.o_full_p <<= is_full\n"
+    late = cfg.get("obs", "first") == "last"
+    # obs=last: the exported full/empty indication comes from a second call made after push()/pop() were traced in
+    # the context (direct answer for a known sender/receiver context instead of the end-of-context indirect signal)
+    prod = "            is_full = fifo.full()\n"
+    if not late:
+        prod += "            self.o_full_p <<= is_full\n"
     prod += "            if self.push_req and not is_full:\n"
     prod += f"                fifo.push({_to_elem(e, 'self.data')})\n                self.o_pushed ^= True\n"
-    cons = "            self.o_pop <<= Null\n            is_empty = fifo.empty()\n            self.o_empty_c <<= is_empty\n"
+    if late:
+        prod += "            self.o_full_p <<= fifo.full()\n"
+    cons = "            self.o_pop <<= Null\n            is_empty = fifo.empty()\n"
+    if not late:
+        cons += "            self.o_empty_c <<= is_empty\n"
     cons += "            if self.pop_req and not is_empty:\n"
     cons += _assign_out(e, "self.o_pop", "fifo.pop()", 16)
     cons += "                self.o_popv ^= True\n"
+    if late:
+        cons += "            self.o_empty_c <<= fifo.empty()\n"
     if cfg["ctx"] == "one":
         s += "        @ctx\n        def proc():\n" + prod + cons
     else:
